@@ -27,6 +27,7 @@ struct Case {
     tol: i32,
     budget: i32,
     batch: usize,
+    print: Option<i32>,
 }
 
 fn dy(t: &mut Tape, range: i64, bits: u32) -> f32 {
@@ -56,7 +57,24 @@ fn decode(tape: &[u32], tier: Tier) -> Case {
     let tol = t.usize(1, 6) as i32;
     let budget = t.usize(1, 14) as i32;
     let batch = t.usize(1, ntrain + 1);
-    Case { inputs, w0, obj, lr, train, val, with_val, tol, budget, batch }
+    let print = [None, None, None, None, None, None, None, None, Some(1), Some(2), Some(3), Some(100)][t.pick(12)];
+    let mut case = Case { inputs, w0, obj, lr, train, val, with_val, tol, budget, batch, print };
+    // one case in eight: losses that creep by single units in the last place (a real, strict rise):
+    // AE training towards a far target with learning rate 1 moves the weight by exactly 1 per epoch;
+    // a validation input of 2^-k makes the validation loss |w * 2^-k - vy| move by one ulp per epoch.
+    if inputs == 1 && t.chance(1, 8) {
+        let k = [23i32, 24, 26, 30][t.pick(4)];
+        let dir = if t.bool() { 1000.0 } else { -1000.0 };
+        let vy = [-1.0f32, -0.5, 1.0, 0.0][t.pick(4)];
+        case.w0 = vec![t.int(-3, 3) as f32];
+        case.obj = ObjK::AE;
+        case.lr = 1.0;
+        case.train = vec![(vec![1.0], dir)];
+        case.val = vec![(vec![2f32.powi(-k)], vy)];
+        case.batch = 1;
+        case.with_val = true;
+    }
+    case
 }
 
 fn make_net(case: &Case) -> Result<neurons::network::Network, String> {
@@ -115,9 +133,9 @@ fn check(case: &Case, ev: &mut CaseEv) -> CheckResult {
     let (vxr, vyr): (Vec<&Tensor>, Vec<&Tensor>) = (vx.iter().collect(), vy.iter().collect());
     let res = catch(std::panic::AssertUnwindSafe(|| {
         if case.with_val {
-            net.learn(&xr, &yr, Some((&vxr, &vyr, case.tol)), case.batch, case.budget, None)
+            net.learn(&xr, &yr, Some((&vxr, &vyr, case.tol)), case.batch, case.budget, case.print)
         } else {
-            net.learn(&xr, &yr, None, case.batch, case.budget, None)
+            net.learn(&xr, &yr, None, case.batch, case.budget, case.print)
         }
     }));
     let (tl, vl, va) = match res {
@@ -162,6 +180,12 @@ fn check(case: &Case, ev: &mut CaseEv) -> CheckResult {
             ev.class("early stop");
         }
         ev.class(format!("trajectory:{}", classify(&vl)));
+        if vl.windows(2).any(|p| p[0] != p[1] && crate::fcmp::ulps32(p[0], p[1]) <= 2) {
+            ev.class("trajectory with 1-2 ulp steps");
+        }
+        if let Some(p) = case.print {
+            ev.class(format!("print every {}", p));
+        }
     }
     // the weights are those of exactly n epochs (validation does not influence training)
     let mut twin = make_net(case).map_err(Fail::new)?;
@@ -196,7 +220,7 @@ impl Prop for C13 {
         Some(1)
     }
     fn rule(&self) -> String {
-        "tape-decoded training set-up whose validation-loss trajectory is exact: linear 1->1 (thorough also 2->1) model without bias, start weight, training slope, validation slope and offset on the 1/4 grid in [-4, 4], inputs in {+-1, 1/2, 2, 1/4}, objective MSE or AE, plain SGD with learning rate in {1/16 .. 2}, 1-3 training and validation points, batch 1..N+1, tolerance 1..6, epoch budget 1..14, validation data present in 5/6 of the cases. Invariant over the returned history: one training-loss entry per epoch run, as many validation-loss and accuracy entries (none without validation data, and then all epochs run), never continues past the first epoch e > tolerance whose last `tolerance` validation losses are strictly increasing, stops early only if that holds at the last epoch, final weights and training losses equal those of a validation-free run of exactly that many epochs. Non-trivial: trajectory not monotone-falling, or an early stop. Distinct = (trajectory class, tolerance, budget, epochs run, loss bit patterns).".into()
+        "tape-decoded training set-up whose validation-loss trajectory is exact: linear 1->1 (thorough also 2->1) model without bias, start weight, training slope, validation slope and offset on the 1/4 grid in [-4, 4], inputs in {+-1, 1/2, 2, 1/4}, objective MSE or AE, plain SGD with learning rate in {1/16 .. 2}, 1-3 training and validation points, batch 1..N+1, tolerance 1..6, epoch budget 1..14, validation data present in 5/6 of the cases, print frequency none (2/3) or 1, 2, 3, 100; one case in eight steers the validation loss by exactly one unit in the last place per epoch. Invariant over the returned history: one training-loss entry per epoch run, as many validation-loss and accuracy entries (none without validation data, and then all epochs run), never continues past the first epoch e > tolerance whose last `tolerance` validation losses are strictly increasing, stops early only if that holds at the last epoch, final weights and training losses equal those of a validation-free run of exactly that many epochs. Non-trivial: trajectory not monotone-falling, or an early stop. Distinct = (trajectory class, tolerance, budget, epochs run, loss bit patterns).".into()
     }
     fn assumptions(&self) -> Vec<String> {
         vec!["'strictly increased throughout the last `tolerance` recorded epochs' is read as: the last `tolerance` recorded validation losses form a strictly increasing sequence (tolerance - 1 comparisons)".into()]
